@@ -63,7 +63,7 @@ def write_hists(res, path, keep=None, dedupe=True, limit=None, seed=1):
 def replay_store(ctx, path, T, tag, nconc=1, conc=None, full=True, race=False, timeout=1500):
     out = ctx.path("out_%s.ndjson" % tag)
     env = {"VERIF_IN": path, "VERIF_OUT": out, "VERIF_MAXT": 2 * T + 1, "VERIF_NCONC": nconc,
-           "VERIF_FULLREADS": "1" if full else "0"}
+           "VERIF_FULLREADS": full if isinstance(full, str) else ("1" if full else "0")}
     if conc is not None:
         env["VERIF_CONC"] = json.dumps(conc)
     rc, text, wall = ctx.go_test("cesium", ".", ["zz_verif_store_test.go"], "^TestVerifStoreReplay$",
